@@ -20,9 +20,21 @@ CONFIG = dict(
              'CHECKPOINTS (4 to 20 per case) the snapshot of the real arena is judged by the extracted proved-sound oracle (entries and node ids = the map, red-black, '
              'parent/min/max/count links, logarithmic height) and compared cell for cell with the model trees (run element by element with the tree-level model functions). '
              'Bulk observations are in the binary side file <trace>.side. '
+             'SHARED-ALLOCATOR streams (round 3, harness/cmd/c05/share.go): every read operation (Get, FindGE, FindLE, Min, Max, Len, complete Next / Prev iteration, Item() of held '
+             'iterators) is issued on EVERY tree after every mutation of ANY tree of the allocator, first with the keys just queried / deleted / inserted elsewhere, and after a deletion '
+             'another tree inserts exactly as many new keys as there are gaps, so that every freed cell is re-used whichever gap malloc picks. `pp` (directed ping-pong, exhaustive over a '
+             'universe of 3 keys, thorough also 4): prefill of A x key k of A that is read and then freed x prefill of B x key B inserts first x way of freeing (DeleteWithKey, '
+             'DeleteWithIterator, Erase - also followed by re-use of the erased tree itself -, CloneDeep onto a third tree then deletion from the clone or the original), each with drawn read '
+             'orders, 2-3 trees, prefill orders and key universes (10..60, 0..5, 2^32-6..2^32-1, {0, 1, 2^31-1, 2^31, 2^32-2, 2^32-1}); then the same in the other direction. `exm`: from each of '
+             'the 16 prefilled states of 2 trees over 2 keys every sequence of 3 (thorough 4) steps over {Insert, DeleteWithKey, Get+FindGE+FindLE} x tree x key, then all reads on both trees '
+             '(quick: first step on tree 0). `share`: random sequences on 2-3 trees over 2..8 keys, every mutation (incl. Erase, CloneDeep, refill of all gaps) followed by the reads on all trees. '
+             'Scale cases `scale-shared-*`: three trees of 257 / 2 000 (thorough 100 000) equal keys on one allocator that hand blocks of 33 / 300 / 1 000 cells to each other (qkeys = Get / FindGE / FindLE at a '
+             'key sequence on every tree before and after), Erase + re-use of a tree, CloneDeep mutated next to its original. '
              'Non-trivial = at least 3 successful insertions and 1 successful deletion; distinct = distinct (number of trees, operation list).',
         exhaustive_note='every sequence of 4 Insert/DeleteWithKey operations over 6 keys (20 736) and of 5 over 4 keys (32 768) in the quick tier; of 5 over '
-                        '6 keys (248 832) and of 7 over 3 keys (279 936) in the thorough tier; the arena is compared after every operation, so all shorter sequences are covered as prefixes',
+                        '6 keys (248 832) and of 7 over 3 keys (279 936) in the thorough tier; the arena is compared after every operation, so all shorter sequences are covered as prefixes; '
+                        'two trees on one allocator: every sequence of 3 steps (first step on tree 0; thorough: 4 steps, any tree) over {Insert, DeleteWithKey, Get+FindGE+FindLE} x 2 trees x 2 keys from each of the 16 prefilled states, '
+                        'followed by all reads on both trees (13 824 / 331 776), and the ping-pong enumeration read-free-reuse-read over 3 keys (576 combinations x 2 draws; thorough x 6, and 4 keys: 4 096 x 3)',
         assumptions=[
             'malloc takes an arbitrary key of the gaps map: the node index actually handed out is read from the implementation (returned iterator / walk of the clone) '
             'and fed to the model as an explicit choice; the theorems quantify over every choice the model accepts (a gap if there is one, else len(storage))',
@@ -47,7 +59,7 @@ CONFIG = dict(
                    'operation on every tree unless that operation removes it - including the predecessor swap of doDelete), C05_arena_links (derived parent links consistent), '
                    'C05_frame (operations on one tree leave the others untouched), C05_oracle_sound (the snapshot oracle used on the real arena is sound).',
         level_note='Proved about the Gallina model, not about the Go text (no verified Go semantics): the tie is the replay - on the unchanged repository zero disagreements on '
-                   'about 55 000 cases / 510 000 operations per quick run, node for node and link for link, plus 37 large trees (0.85 million insertions, 1.1 million nodes compared at checkpoints). Modelled rather than verified: all of rbtree.go. The model is a '
+                   'about 70 000 cases / 1.2 million operations per quick run, node for node and link for link, plus 39 large trees (0.7 million insertions, 0.85 million nodes compared at checkpoints). Modelled rather than verified: all of rbtree.go. The model is a '
                    'recursive tree, not a pointer structure: parent links, minNode/maxNode and count are DERIVED from the shape (C05_arena_links proves the derived links consistent; '
                    'that the incrementally maintained Go fields equal the derived ones is checked by the replay and by the oracle on every snapshot). doDelete(node) is modelled as '
                    'deletion of that node\'s key (equal on search trees with distinct ids, which the invariant provides). Several trees on one allocator are separate values in the model, so '
